@@ -55,6 +55,24 @@ class C08(Check):
                 t = rng.choice(c1["g"])
                 if set(t["c"]) <= set(c2["ins"] + c2["outs"]):
                     c2["g"].append({"c": {v: -x for v, x in t["c"].items()}, "k": -t["k"] - 1.0})   # jointly infeasible
+            elif m < 0.55:
+                # nearly identical terms on the two sides (relative difference ~5e-6): both must survive
+                for part, pool in (("a", [v for v in c1["ins"] if v in c2["ins"]]), ("g", [v for v in c1["ins"] + c1["outs"] if v in c2["ins"] + c2["outs"]])):
+                    cand = [t for t in c1[part] if set(t["c"]) <= set(pool)]
+                    if cand:
+                        t = rng.choice(cand)
+                        v0 = sorted(t["c"])[0]
+                        c2[part].insert(0, {"c": {v: (x * (1 + 5e-6) if v == v0 else x) for v, x in t["c"].items()}, "k": t["k"]})
+            elif m < 0.68:
+                # a guarantee of one operand is verbatim an assumption of the other, comes first and introduces its variable first
+                shared = [v for v in c1["ins"] if v in c2["ins"]]
+                if shared:
+                    v = rng.choice(shared)
+                    t = {"c": {v: 1.0}, "k": float(pt[v] + rng.randint(0, 2))}
+                    c2["a"] = [dict(c=dict(t["c"]), k=t["k"])] + c2["a"]
+                    c1["g"] = [dict(c=dict(t["c"]), k=t["k"])] + c1["g"]
+                    o = rng.choice(c2["outs"])
+                    c2["g"].append({"c": {o: 1.0, v: -1.0}, "k": float(pt[o] - pt[v] + rng.randint(0, 3))})
             if rng.random() < 0.5:
                 c1, c2 = c2, c1
             out.append({"op": "merge", "c1": c1, "c2": c2})
